@@ -395,6 +395,106 @@ def triples(ctx, arg, rec):
 
 
 # ----------------------------------------------------------------------------------------------------------
+# ---- part C: the OPA/OPB/OFM scale registers an ADD/SUB operation is given ---------------------------------
+def check_regs(case, rec=None):
+    """one ADD/SUB NpuElementWiseOperation through api.npu_generate_register_command_stream; the decoded OPA_SCALE / OPB_SCALE / OFM_SCALE registers (whatever
+    derivation produced them: 'simplified' for equal input scales, 'advanced' otherwise) must denote the reference's end-to-end gains: every scaled operand reaches
+    the output with s_i / s_out, to within the two Q31 roundings the reference itself makes (2^-29 relative)"""
+    import numpy as np
+
+    import csdec
+    import hw
+    import props.c06 as c06
+
+    api = c06._api()
+    accel = case["accel"]
+    accel_enum = getattr(api.NpuAccelerator, hw.ACCELS[accel]["enum"])
+    dt = case["dtype"]
+    esz = 2 if dt == "int16" else 1
+    f32 = bool(case.get("np_float32"))
+
+    def fm(base, scale, zp):
+        return dict(dtype=dt, region=1, shape=[4, 4, 16], layout="NHWC", tiles=[4, 0, 4, [base, 0, 0, 0]], zp=zp, scale=np.float32(scale) if f32 else float(scale), strides=None)
+
+    zp = 0 if dt == "int16" else case.get("zp", 0)
+    spec = dict(kind="elementwise", mode=case["op"], ifm=fm(0, case["s1"], zp), ifm2=fm(4 * 4 * 16 * esz, case["s2"], zp), ofm=fm(2 * 4 * 4 * 16 * esz, case["so"], zp), reversed=False, rounding="TFL")
+    op = c06.build_op(api, spec, accel_enum)
+    blk = c06.choose_block(api, op, spec, accel_enum, case)
+    if blk is None:
+        return
+    op.block_config = blk
+    words = sut("C09/regs/generate", case, api.npu_generate_register_command_stream, [op], accel_enum)
+    cmds = [c for c in csdec.decode_words([int(w) for w in words]) if c.kind == "elementwise"]
+    f = csdec.fields(cmds[0])
+    s1, s2, so = Fraction(float(np.float32(case["s1"]))), Fraction(float(np.float32(case["s2"]))), Fraction(float(np.float32(case["so"])))
+    ofm_m, ofm_sh = f["ofm_scale"]
+    out = Fraction(int(ofm_m), 1 << int(ofm_sh))
+    mode = f["ifm"]["scale_mode"]
+    opa_m, opa_sh = f["opa_scale"]
+    opb_m = f["opb_scale"][0] if isinstance(f["opb_scale"], (tuple, list)) else f["opb_scale"]
+    tol = Fraction(1, 1 << 29)
+
+    def close(got, want, what):
+        if want == 0 or abs(got / want - 1) > tol:
+            raise Violation("C09/regs/" + what, "%s %s scales %r,%r -> %r: registers OPA=(%d,%d) OPB=%d OFM=(%d,%d) mode %d: %s gain %.12g, reference %.12g" % (
+                dt, case["op"], case["s1"], case["s2"], case["so"], opa_m, opa_sh, opb_m, ofm_m, ofm_sh, mode, what, float(got), float(want)), case)
+
+    bits = 16 if dt == "int16" else 8
+    _, eo = math.frexp(float(2 * max(s1, s2) / so / (1 << (15 if bits == 16 else 20))))
+    if not (-31 <= eo <= 29):
+        if rec is not None:
+            rec.cls("regs-output-scale-outside-reference-range")
+        return
+    if mode == 0:
+        # both operands scaled by 16-bit factors (equal input scales): gain of operand i = OPi * OFM
+        close(Fraction(int(opa_m)) * out, s1 / so, "operand-a")
+        close(Fraction(int(opb_m)) * out, s2 / so, "operand-b")
+    else:
+        # one operand scaled by (OPA_SCALE, shift): the smaller scale; the other one enters with 2^left_shift (the reference's left shift: 20 for 8 bit, 15 for 16 bit)
+        small, large = (s1, s2) if s1 < s2 else (s2, s1)
+        close(Fraction(int(opa_m), 1 << int(opa_sh)) * out, small / so, "scaled-operand")
+        close(Fraction(1 << (15 if bits == 16 else 20)) * out / 2, large / so, "unscaled-operand")
+    if rec is not None:
+        rec.cls("regs-mode-%d" % mode, "regs-%s" % dt)
+        rec.nontriv(["regs", case["op"], dt, case["s1"], case["s2"], case["so"]], sample=case)
+
+
+def regs_strategy():
+    from hypothesis import strategies as st
+    import numpy as np
+
+    import hw
+
+    def f32(v):
+        return float(np.float32(v))
+
+    base = st.one_of(st.floats(min_value=f32(1e-4), max_value=2.0, width=32), st.sampled_from([1 / 256, 1 / 128, 0.5, 1.0, 0.00390625, 0.0078125, 0.1, 0.05, 0.003, 0.103]),
+                     st.integers(1, 1 << 16).map(lambda k: f32(k / 65536.0)))
+
+    @st.composite
+    def case(draw):
+        s1 = f32(draw(base))
+        mode = draw(st.integers(0, 3))
+        if mode <= 1:
+            s2 = s1  # equal input scales: the 'simplified' derivation (always for 16 bit; for 8 bit when the output multiplier has twelve zero low bits)
+        elif mode == 2:
+            s2 = f32(s1 * 2.0 ** draw(st.integers(-3, 3)))
+        else:
+            s2 = f32(draw(base))
+        so = f32(max(s1, s2) * draw(st.sampled_from([1.0, 2.0, 0.5, 4.0, 1.0, 2.0]))) if draw(st.integers(0, 2)) else f32(draw(base))
+        dt = draw(st.sampled_from(["int8", "uint8", "int16", "int16"]))
+        return dict(kind="regs", accel=draw(st.sampled_from(hw.ACCEL_NAMES)), op=draw(st.sampled_from(["ADD", "SUB"])), dtype=dt, s1=s1, s2=s2, so=so,
+                    np_float32=draw(st.booleans()), zp=draw(st.integers(0, 5)) if dt != "int16" else 0)
+
+    return case()
+
+
+def regs(ctx, arg, rec):
+    shard, n = arg
+    run_hypothesis(rec, regs_strategy(), check_regs, n, sub_seed(ctx.seed, PROPERTY, "regs", shard), shrink=True)
+
+
+# ----------------------------------------------------------------------------------------------------------
 # ---- part B: packed scale records of compiled networks ---------------------------------------------------
 def artefact_case(case, rec=None):
     """every (bias, scale, shift) record of every convolution-type NPU operation of a compiled network is compared, channel by channel, with the reference derivation
@@ -515,6 +615,7 @@ def parts(ctx):
     ps += [Part("pool8_big%d" % i, pool_points, (big8[i::4], 255, 8)) for i in range(4)]
     ps += [Part("pool16_big%d" % i, pool_points, (big16[i::4], 65535, 16)) for i in range(4)]
     ps += [Part("triples%02d" % i, triples, (i, 1200 if q else 60000)) for i in range(8)]
+    ps += [Part("regs%02d" % i, regs, (i, 250 if q else 12000)) for i in range(8)]
     return ps
 
 
@@ -528,6 +629,8 @@ def replay(ctx, case):
         check_pool_window(n, accs, case, None, case.get("bits", 8))
     elif k == "triple":
         check_triple(case, None)
+    elif k == "regs":
+        check_regs(case, None)
     elif "spec" in case:
         artefact_case(case, None)
     else:
